@@ -40,6 +40,8 @@ Driver for C16.  Ops (one history per case; every token an integer, -1 = nil poi
   roundx <nf> <failIds>* <no> <order>*  doOnceArbitrate with every own write echoed as an Update event before the next
                                         job is filtered                    -> wf … + state block
   deljob <id>                           API object deleted + handler.Delete -> state block
+  cfgvia                                the MigrationControllerArgs of cfg / cfgx were written into a v1alpha2 file and came back through
+                                        decoding, defaulting, conversion, validation -> arbcfg <mg> <mn> <ms> <mmKind> <mm> <muKind> <mu> <skipCER> <n> <gate>*
  harness config (pkg/descheduler; cmd/koord-descheduler/app/options.ApplyTo on a generated v1alpha2 file)
   cfgfile <dry> <node> <ns> <total>     the three caps as written: -1 key absent, -2 null, -3 malformed (-> cfgerr), n >= 0 the integer
                                         -> caps <node> <ns> <total> (decoded internal config, -1 = nil); then as `cy`
@@ -207,6 +209,10 @@ def runLine (d : DSt) (line : String) : DSt × List String :=
           let a' := roundEager d.cfg fails d.arb (order.map Int.toNat)
           ({ d with arb := a' }, s!"wf {b2i (wfB d.arb)}" :: stateBlock a')
         | [] => (d, ["bad-op"])
+      | "cfgvia", [] =>
+        let c := defaultArbCfg d.cfg
+        let gates := String.join (c.skip.map fun g => s!" {g}")
+        ({ d with cfg := c }, [s!"arbcfg {c.maxGlobal} {c.maxNode} {c.maxNs} {c.mmKind} {c.maxMigr} {c.muKind} {c.maxUnav} {b2i c.skipCER} {c.skip.length}{gates}"])
       | "cfgfile", [dry, cn, cs, ct] =>
         if !configLoads (capDeclOf cn) (capDeclOf cs) (capDeclOf ct) then (d, ["cfgerr"]) else
         let c := configCaps (capDeclOf cn) (capDeclOf cs) (capDeclOf ct)
